@@ -441,27 +441,42 @@ def doInclude (pe : PEnv) (m : PM) (fname : Bytes) : PM :=
                     srcs := { rest := content, savedFile := f.cfg.info.filename, savedLine := f.cfg.info.line } :: m.srcs }
          | _ => m.rejectWith f rest .includeOpen)
 
-def parseLoop (orc : Oracle) (pe : PEnv) : Nat → PM → PM
-  | 0, m => if m.status == .running then { m with status := .outOfFuel } else m
-  | fuel + 1, m =>
+inductive StartCond | initial | dq | sq | comment
+deriving DecidableEq, Repr, Inhabited
+
+/-- the scanner entered in a given flex start condition -/
+def lexFrom (env : Env) (sc : StartCond) (inp : Bytes) : LexOut :=
+  match sc with
+  | .initial => lexInitial env 0 inp
+  | .dq => dqRun env ⟨.plain, [], 0⟩ inp
+  | .sq => sqRun .plain [] 0 inp
+  | .comment => commentRun [] 0 inp
+
+/-- the parse loop; `sc` is the start condition of the *first* scanner call, every later call happens
+between tokens, where the condition is INITIAL -/
+def parseLoopFrom (orc : Oracle) (pe : PEnv) : Nat → StartCond → PM → PM
+  | 0, _, m => if m.status == .running then { m with status := .outOfFuel } else m
+  | fuel + 1, sc, m =>
     if m.status != .running then m else
     match m.srcs with
     | [] => m
     | src :: srcs =>
-      let o := lexInitial pe.env 0 src.rest
+      let o := lexFrom pe.env sc src.rest
       if o.tok == .eof && !srcs.isEmpty then
         -- end of an included source: restore the includer's position and go on there
         (match m.frames with
          | f :: rest =>
            let f' := { f with cfg := f.cfg.setInfo { f.cfg.info with filename := src.savedFile, line := src.savedLine } }
-           parseLoop orc pe fuel { m with frames := f' :: rest, srcs := srcs }
+           parseLoopFrom orc pe fuel .initial { m with frames := f' :: rest, srcs := srcs }
          | [] => m)
       else
         let m1 := pstep orc { m with srcs := { src with rest := o.rest } :: srcs } o.tok o.nl
         let m2 := match m1.pendingInclude with
           | some fname => if m1.status == .running then doInclude pe m1 fname else m1
           | none => m1
-        parseLoop orc pe fuel m2
+        parseLoopFrom orc pe fuel .initial m2
+
+def parseLoop (orc : Oracle) (pe : PEnv) (fuel : Nat) (m : PM) : PM := parseLoopFrom orc pe fuel .initial m
 
 structure ParseOut where
   cfg : Cfg
@@ -477,17 +492,21 @@ deriving Inhabited
 /-- a generous bound on the number of scanner calls: every call consumes a byte or pops a source -/
 def fuelFor (pe : PEnv) (text : Bytes) : Nat := 1000000000 + text.length + pe.maxInc
 
-/-- `cfg_parse_fp` once the file name is settled -/
-def parseFp (orc : Oracle) (pe : PEnv) (c : Cfg) (text : Bytes) (k0 : Nat := 0) : ParseOut :=
-  let c1 := c.setLine 1
-  let m0 : PM := { frames := [{ cfg := c1 }], srcs := [{ rest := text }],
-                   trace := List.replicate k0 (CbCall.free []) }
-  let m := parseLoop orc pe (fuelFor pe text) m0
-  let root := match collapse m.frames with | some f => f.cfg | none => c1
-  { cfg := root, rc := if m.status == .accepted then 0 else 1, diags := m.diags.reverse,
+/-- what `cfg_parse_fp` hands back once the loop has stopped -/
+def finishParse (c1 : Cfg) (m : PM) (k0 : Nat) : ParseOut :=
+  { cfg := (match collapse m.frames with | some f => f.cfg | none => c1),
+    rc := if m.status == .accepted then 0 else 1, diags := m.diags.reverse,
     trace := (m.trace.reverse.drop k0), maxDepth := m.maxDepth, incLeft := m.srcs.length - 1,
     incAfter := (m.srcs.length - 1) - (m.srcs.length - 1),
     fuelOut := m.status == .outOfFuel }
+
+/-- the machine `cfg_parse_fp` starts -/
+def startPM (c1 : Cfg) (text : Bytes) (k0 : Nat) : PM :=
+  { frames := [{ cfg := c1 }], srcs := [{ rest := text }], trace := List.replicate k0 (CbCall.free []) }
+
+/-- `cfg_parse_fp` once the file name is settled -/
+def parseFp (orc : Oracle) (pe : PEnv) (c : Cfg) (text : Bytes) (k0 : Nat := 0) : ParseOut :=
+  finishParse (c.setLine 1) (parseLoop orc pe (fuelFor pe text) (startPM (c.setLine 1) text k0)) k0
 
 def bufName : Bytes := [91, 98, 117, 102, 93]        -- "[buf]"
 def fileName : Bytes := [70, 73, 76, 69]             -- "FILE"
